@@ -450,6 +450,58 @@ theorem call_ignores_extra (params : List String) (d env : Dict) :
 
 example : call ["a", "b"] [("b", 1)] [("zz", 3), ("a", 5)] = call ["a", "b"] [("b", 1)] [("a", 5)] := by decide
 
+/-! ## any mapping: `key in m` before `m[key]` -/
+
+theorem getitem_of_contains (m : Mapping) (k : String) (h : m.contains k = true) :
+    ∃ v, m.stored.lookup k = some v ∧ m.getitem k = (some v, m) := by
+  have hk : k ∈ keys m.stored := by simpa [Mapping.contains] using h
+  have := (mem_keys_iff m.stored k).1 hk
+  cases hl : m.stored.lookup k with
+  | none => simp [hl] at this
+  | some v => exact ⟨v, rfl, by simp [Mapping.getitem, hl]⟩
+
+theorem pickM_eq (m : Mapping) (l : List String) :
+    pickM m l = (.ok (l.filterMap fun p => (m.stored.lookup p).map (p, ·)), m) := by
+  induction l with
+  | nil => rfl
+  | cons k t ih =>
+    unfold pickM
+    by_cases hc : m.contains k = true
+    · obtain ⟨v, hl, hg⟩ := getitem_of_contains m k hc
+      simp only [hc, if_true, hg, ih, List.filterMap_cons, hl, Option.map_some]
+    · have hk : k ∉ keys m.stored := by simpa [Mapping.contains] using hc
+      have hl : m.stored.lookup k = none := (lookup_eq_none_iff m.stored k).2 hk
+      simp only [hc, ih, List.filterMap_cons, hl, Option.map_none]
+      rfl
+
+/-- **called with any mapping**: whatever the mapping answers for absent keys (KeyError, a
+    `__missing__`/default-factory value) and whether or not such a look-up stores the key, the call as coded
+    — `key in args` first, `args[key]` only for contained keys — gives exactly the call on the entries the
+    mapping really stores (so every theorem about `call` applies: absent optional names get the wrapper's
+    defaults, never the mapping's fallback), and **the user's mapping is left exactly as it was**. -/
+theorem callM_eq (params : List String) (d : Dict) (m : Mapping) :
+    callM params d m = (call params d m.stored, m) := by
+  unfold callM call assemble
+  simp only [pickM_eq, Mapping.contains]
+  split
+  · split <;> rfl
+  · rfl
+
+example : callM ["a", "b"] [("b", 1)] ⟨[("a", 5)], some 0, true⟩ = (.ok [("a", 5), ("b", 1)], ⟨[("a", 5)], some 0, true⟩) := by
+  decide
+
+/-- **"ask the mapping first" is wrong**: with `try: args[key] except KeyError: defaults[key]` a defaultdict
+    that does not store the optional name `b` makes the function receive the factory value 0 instead of the
+    default 1, and the look-up writes `b` into the user's container … -/
+theorem eafp_breaks_defaultdict :
+    callEafp ["a", "b"] [("b", 1)] ⟨[("a", 5)], some 0, true⟩
+      = (.ok [("a", 5), ("b", 0)], ⟨[("a", 5), ("b", 0)], some 0, true⟩) := by decide
+
+/-- … and a dict subclass with `__missing__` (no insertion) still binds the fallback. -/
+theorem eafp_breaks_missing :
+    callEafp ["a", "b"] [("b", 1)] ⟨[("a", 5)], some 9, false⟩
+      = (.ok [("a", 5), ("b", 9)], ⟨[("a", 5)], some 9, false⟩) := by decide
+
 /-! ## wrapping: defaults align at the tail of the parameter list -/
 
 theorem allSome_map_some {α} (l : List α) : allSome (l.map some) = some l := by
